@@ -24,7 +24,7 @@ except ImportError:  # pragma: no cover
     import sre_constants as sre_c
 
 from .ops import Unsupported, as_int, concrete_int, concrete_str, T, F
-from .values import NONE, VBool, VBuiltin, VInt, VNone, VObj, VOpt, VStr, VTuple, VRegex, StrS
+from .values import NONE, VByteArray, VBool, VBuiltin, VInt, VNone, VObj, VOpt, VStr, VTuple, VRegex, StrS
 
 MAXCHAR = "\U0002ffff"
 
@@ -247,12 +247,32 @@ def _top_pieces(tr):
     return pieces, begin, end, dollar
 
 
+def _literal_alternatives(tr):
+    """the literal alternatives (in order) if the last top-level item is a branch of plain literals, else None"""
+    items, begin, end, dollar = tr.strip_anchors(tr.parsed)
+    if not items or tr.ignorecase:
+        return None
+    op, av = items[-1]
+    if op is sre_c.SUBPATTERN and av[0] is None and len(av[3]) == 1:
+        op, av = av[3][0]
+    if op is not sre_c.BRANCH:
+        return None
+    out = []
+    for alt in av[1]:
+        if not all(o is sre_c.LITERAL for o, _ in alt):
+            return None
+        out.append("".join(chr(c) for _, c in alt))
+    return out
+
+
 def _mk_match(it, rx, s, mode, node, pos=None):
     """returns VOpt(match object)"""
     tr = translate(rx)
     kind = s.kind
     R, begin, end, dollar = tr.language()
-    any_ = z3.Star(_anychar(tr.maxc))
+    # what surrounds a match is unconstrained text: the full language (cheaper for the solvers than a range star, and
+    # equal to it on every real bytes / str value)
+    any_ = z3.Full(z3.ReSort(StrS))
     nl_opt = z3.Option(_lit(10))
     sz = s.z
     base = z3.IntVal(0)
@@ -303,6 +323,23 @@ def _mk_match(it, rx, s, mode, node, pos=None):
         it.ctx.assume(z3.InRe(post, tail_re), "re:tail")
     parts.append(post)
     it.ctx.assume(sz == z3.Concat(*parts) if len(parts) > 1 else sz == parts[0], "re:decomposition")
+    # leftmost-first choice: when the pattern ENDS with an alternation of literals and nothing after it can force
+    # backtracking (not fullmatch, no end anchor), the first alternative that fits is the one taken
+    alts = _literal_alternatives(tr)
+    if alts and whole_parts:
+        if len(alts) <= 4:
+            # one path per alternative: the matched text is a constant on each
+            d = it.ctx.choose([whole_parts[-1] == z3.StringVal(li) for li in alts], what="re:alternative")
+            it.ctx.assume(whole_parts[-1] == z3.StringVal(alts[d]), "re:piece-language")
+        else:
+            it.ctx.assume(z3.Or([whole_parts[-1] == z3.StringVal(li) for li in alts]), "re:piece-language")
+    if alts and mode != "fullmatch" and not end and whole_parts:
+        last = whole_parts[-1]
+        rest = z3.Concat(last, post)
+        for i, li in enumerate(alts):
+            earlier = [z3.Not(z3.PrefixOf(z3.StringVal(lj), rest)) for lj in alts[:i]]
+            if earlier:
+                it.ctx.assume(z3.Implies(last == z3.StringVal(li), z3.And(earlier)), "re:leftmost-first-alternative")
     whole = z3.Concat(*whole_parts) if len(whole_parts) > 1 else (whole_parts[0] if whole_parts else z3.StringVal(""))
     m.fields["__whole__"] = VStr(whole, kind)
     m.fields["__start__"] = VInt(base + z3.Length(pre))
@@ -370,6 +407,9 @@ def regex_attr(it, rx, name, node):
     def mk(mode):
         def f(it2, a, k, n):
             s = it2.need(a[0])
+            if isinstance(s, VByteArray) and rx.is_bytes:
+                # bytes patterns accept any bytes-like subject; the match only reads it
+                s = VStr(s.z, "bytes")
             if not isinstance(s, VStr):
                 it2.raise_("TypeError", node=n)
             pos = None
